@@ -25,6 +25,15 @@ use crate::{
         ec_prime_field::Fp25519,
     },
     error::{LengthError, UnwrapInfallible},
+    helpers::hashing::Hash,
+    query::ProtocolResult,
+    report::{
+        hybrid::{
+            AggregateableHybridReport, HybridConversionReport, HybridImpressionReport,
+            IndistinguishableHybridReport, PrfHybridReport, UniqueBytes, UniqueTag,
+        },
+        hybrid_info::{HybridConversionInfo, HybridImpressionInfo},
+    },
     secret_sharing::{
         BitDecomposed, SharedValue, StdArray, TransposeFrom, Vectorizable,
         replicated::{ReplicatedSecretSharing, semi_honest::AdditiveShare},
@@ -166,6 +175,87 @@ where
     }
 }
 
+impl Wire for Hash {
+    fn leaves(&self, out: &mut Vec<String>) {
+        out.push(le_to_hexint(&to_raw(self)));
+    }
+    fn build(it: &mut dyn Iterator<Item = &str>) -> Self {
+        from_raw(&bits_to_bytes(&hex_to_bits(it.next().unwrap(), 256)))
+    }
+}
+
+impl Wire for UniqueTag {
+    fn leaves(&self, out: &mut Vec<String>) {
+        out.push(le_to_hexint(&self.unique_bytes()));
+    }
+    fn build(it: &mut dyn Iterator<Item = &str>) -> Self {
+        from_raw(&bits_to_bytes(&hex_to_bits(it.next().unwrap(), 128)))
+    }
+}
+
+fn bits_to_bytes(bits: &[bool]) -> Vec<u8> {
+    bits.chunks(8).map(|c| c.iter().enumerate().fold(0u8, |a, (k, b)| a | (u8::from(*b) << k))).collect()
+}
+
+impl<const N: usize> Wire for [Hash; N]
+where
+    [Hash; N]: Serializable,
+{
+    fn leaves(&self, out: &mut Vec<String>) {
+        for h in self {
+            h.leaves(out);
+        }
+    }
+    fn build(it: &mut dyn Iterator<Item = &str>) -> Self {
+        std::array::from_fn(|_| Hash::build(it))
+    }
+}
+
+impl<const N: usize> Wire for [Fp61BitPrime; N]
+where
+    [Fp61BitPrime; N]: Serializable,
+{
+    fn leaves(&self, out: &mut Vec<String>) {
+        for h in self {
+            h.leaves(out);
+        }
+    }
+    fn build(it: &mut dyn Iterator<Item = &str>) -> Self {
+        std::array::from_fn(|_| Fp61BitPrime::build(it))
+    }
+}
+
+impl<const N: usize> Wire for Box<[Fp61BitPrime; N]>
+where
+    Box<[Fp61BitPrime; N]>: Serializable,
+{
+    fn leaves(&self, out: &mut Vec<String>) {
+        for h in self.iter() {
+            h.leaves(out);
+        }
+    }
+    fn build(it: &mut dyn Iterator<Item = &str>) -> Self {
+        Box::new(std::array::from_fn(|_| Fp61BitPrime::build(it)))
+    }
+}
+
+impl Wire for PrfHybridReport<BA8, BA3> {
+    fn leaves(&self, out: &mut Vec<String>) {
+        out.push(format!("{:x}", self.match_key));
+        self.value.leaves(out);
+        self.breakdown_key.leaves(out);
+    }
+    fn build(it: &mut dyn Iterator<Item = &str>) -> Self {
+        let match_key = u64::from_str_radix(it.next().unwrap(), 16).unwrap();
+        let value = AdditiveShare::<BA3>::build(it);
+        let breakdown_key = AdditiveShare::<BA8>::build(it);
+        Self { match_key, value, breakdown_key }
+    }
+}
+
+/// `ARRAY_LEN` of proof_generation.rs (private there): first proof + 13 compressed proofs of 7 elements
+const PROOF_ARRAY_LEN: usize = 98;
+
 // ------------------------------------------------------------------------------------------------
 // executors
 
@@ -270,6 +360,15 @@ fn exec_serde(op: &str, ty: &str, args: &[&str]) -> String {
         Some((w, l)) => (w, l),
         None => ("", ty),
     };
+    match (wrap, leaf) {
+        ("", "Hash") => return run::<Hash>(op, args),
+        ("", "UniqueTag") => return run::<UniqueTag>(op, args),
+        ("", "HashArr") => return run::<[Hash; 14]>(op, args),
+        ("", "ProofDiff") => return run::<[Fp61BitPrime; 15]>(op, args),
+        ("", "ProofArr") => return run::<Box<[Fp61BitPrime; PROOF_ARRAY_LEN]>>(op, args),
+        ("", "Prf") => return run::<PrfHybridReport<BA8, BA3>>(op, args),
+        _ => {}
+    }
     match wrap {
         "" => for_leaves!(dispatch_leaf!(leaf, op, args, w_id;)),
         "share" => for_leaves!(dispatch_leaf!(leaf, op, args, w_share;)),
@@ -552,9 +651,237 @@ fn exec_tr(a: &[&str]) -> String {
     }
 }
 
+// ------------------------------------------------------------------------------------------------
+// composite wire types: c09.vec / c09.pack / c09.info / c09.rep
+
+fn vec_to_bytes<T: Wire + std::fmt::Debug + Send>(arg: &str) -> String {
+    let rows: Vec<T> = if arg == "-" {
+        vec![]
+    } else {
+        arg.split(';').map(|r| T::build(&mut r.split(':'))).collect()
+    };
+    hex(&ProtocolResult::to_bytes(&rows))
+}
+
+fn exec_vec(ty: &str, arg: &str) -> String {
+    match ty {
+        "share:BA8" => vec_to_bytes::<AdditiveShare<BA8>>(arg),
+        "share:BA32" => vec_to_bytes::<AdditiveShare<BA32>>(arg),
+        "share:BA3" => vec_to_bytes::<AdditiveShare<BA3>>(arg),
+        "share:Fp32BitPrime" => vec_to_bytes::<AdditiveShare<Fp32BitPrime>>(arg),
+        "share:Fp31" => vec_to_bytes::<AdditiveShare<Fp31>>(arg),
+        "Prf" => vec_to_bytes::<PrfHybridReport<BA8, BA3>>(arg),
+        other => panic!("harness: no Vec<{other}> result type"),
+    }
+}
+
+/// `Shuffleable` is not imported at file level: its `new` would clash with `ReplicatedSecretSharing::new`.
+mod shuf {
+    use crate::protocol::ipa_prf::shuffle::Shuffleable;
+    pub fn left<T: Shuffleable>(t: &T) -> T::Share {
+        t.left()
+    }
+    pub fn right<T: Shuffleable>(t: &T) -> T::Share {
+        t.right()
+    }
+    pub fn new<T: Shuffleable>(l: T::Share, r: T::Share) -> T {
+        T::new(l, r)
+    }
+}
+
+fn h128(s: &str) -> u128 {
+    u128::from_str_radix(s, 16).unwrap()
+}
+
+fn pack_hyb<BK, V>(op: &str, a: &[&str]) -> String
+where
+    BK: crate::ff::boolean_array::BooleanArray + U128Conversions + Vectorizable<1>,
+    V: crate::ff::boolean_array::BooleanArray + U128Conversions + Vectorizable<1>,
+{
+    type R<BK, V> = IndistinguishableHybridReport<BK, V>;
+    match op {
+        "lr" => {
+            let f: Vec<u128> = a.iter().map(|x| h128(x)).collect();
+            let r = R::<BK, V> {
+                match_key: AdditiveShare::new(BA64::truncate_from(f[0]), BA64::truncate_from(f[1])),
+                value: AdditiveShare::new(V::truncate_from(f[2]), V::truncate_from(f[3])),
+                breakdown_key: AdditiveShare::new(BK::truncate_from(f[4]), BK::truncate_from(f[5])),
+            };
+            format!("{:x} {:x}", shuf::left(&r).as_u128(), shuf::right(&r).as_u128())
+        }
+        "new" => {
+            let r: R<BK, V> = shuf::new(BA112::truncate_from(h128(a[0])), BA112::truncate_from(h128(a[1])));
+            format!(
+                "{:x}:{:x}:{:x}:{:x}:{:x}:{:x}",
+                r.match_key.left().as_u128(), r.match_key.right().as_u128(),
+                r.value.left().as_u128(), r.value.right().as_u128(),
+                r.breakdown_key.left().as_u128(), r.breakdown_key.right().as_u128()
+            )
+        }
+        _ => panic!("harness: unknown pack op {op}"),
+    }
+}
+
+fn pack_agg<BK, V>(op: &str, a: &[&str]) -> String
+where
+    BK: crate::ff::boolean_array::BooleanArray + U128Conversions + Vectorizable<1>,
+    V: crate::ff::boolean_array::BooleanArray + U128Conversions + Vectorizable<1>,
+{
+    type R<BK, V> = AggregateableHybridReport<BK, V>;
+    match op {
+        "lr" => {
+            let f: Vec<u128> = a.iter().map(|x| h128(x)).collect();
+            let r = R::<BK, V> {
+                match_key: (),
+                value: AdditiveShare::new(V::truncate_from(f[0]), V::truncate_from(f[1])),
+                breakdown_key: AdditiveShare::new(BK::truncate_from(f[2]), BK::truncate_from(f[3])),
+            };
+            format!("{:x} {:x}", shuf::left(&r).as_u128(), shuf::right(&r).as_u128())
+        }
+        "new" => {
+            let r: R<BK, V> = shuf::new(BA32::truncate_from(h128(a[0])), BA32::truncate_from(h128(a[1])));
+            format!(
+                "{:x}:{:x}:{:x}:{:x}",
+                r.value.left().as_u128(), r.value.right().as_u128(),
+                r.breakdown_key.left().as_u128(), r.breakdown_key.right().as_u128()
+            )
+        }
+        _ => panic!("harness: unknown pack op {op}"),
+    }
+}
+
+const PACK_HYB: &[(&str, &str)] = &[("BA8", "BA3"), ("BA5", "BA3"), ("BA32", "BA16"), ("BA20", "BA20"), ("BA8", "BA32"), ("BA32", "BA32")];
+const PACK_AGG: &[(&str, &str)] = &[("BA8", "BA3"), ("BA16", "BA16"), ("BA8", "BA20"), ("BA5", "BA3"), ("BA32", "BA8")];
+
+fn exec_pack(a: &[&str]) -> String {
+    let (kind, bk, v, op, rest) = (a[0], a[1], a[2], a[3], &a[4..]);
+    match (kind, bk, v) {
+        ("hyb", "BA8", "BA3") => pack_hyb::<BA8, BA3>(op, rest),
+        ("hyb", "BA5", "BA3") => pack_hyb::<BA5, BA3>(op, rest),
+        ("hyb", "BA32", "BA16") => pack_hyb::<BA32, BA16>(op, rest),
+        ("hyb", "BA20", "BA20") => pack_hyb::<BA20, BA20>(op, rest),
+        ("hyb", "BA8", "BA32") => pack_hyb::<BA8, BA32>(op, rest),
+        ("hyb", "BA32", "BA32") => pack_hyb::<BA32, BA32>(op, rest),
+        ("agg", "BA8", "BA3") => pack_agg::<BA8, BA3>(op, rest),
+        ("agg", "BA16", "BA16") => pack_agg::<BA16, BA16>(op, rest),
+        ("agg", "BA8", "BA20") => pack_agg::<BA8, BA20>(op, rest),
+        ("agg", "BA5", "BA3") => pack_agg::<BA5, BA3>(op, rest),
+        ("agg", "BA32", "BA8") => pack_agg::<BA32, BA8>(op, rest),
+        _ => panic!("harness: no such packing instance {kind} {bk} {v}"),
+    }
+}
+
+fn conv_info(a: &[&str]) -> HybridConversionInfo {
+    HybridConversionInfo {
+        key_id: u8::from_str_radix(a[0], 16).unwrap(),
+        conversion_site_domain: String::from_utf8(unhex(a[1])).expect("harness: domain must be UTF-8"),
+        timestamp: u64::from_str_radix(a[2], 16).unwrap(),
+        epsilon: f64::from_bits(u64::from_str_radix(a[3], 16).unwrap()),
+        sensitivity: f64::from_bits(u64::from_str_radix(a[4], 16).unwrap()),
+    }
+}
+
+fn show_conv(c: &HybridConversionInfo) -> String {
+    format!(
+        "{:x} {} {:x} {:x} {:x}",
+        c.key_id, hex(c.conversion_site_domain.as_bytes()), c.timestamp, c.epsilon.to_bits(), c.sensitivity.to_bits()
+    )
+}
+
+/// error or panic on malformed input are both "rejected" for C09 (which one it is belongs to C10/C17)
+fn rej_on_panic(f: impl FnOnce() -> Option<String>) -> String {
+    match guarded(f) {
+        Ok(Some(s)) => format!("ok {s}"),
+        Ok(None) | Err(_) => "rej".into(),
+    }
+}
+
+fn exec_info(a: &[&str]) -> String {
+    match (a[0], a[1]) {
+        ("imp", "en") => {
+            let i = HybridImpressionInfo::new(u8::from_str_radix(a[2], 16).unwrap());
+            let b = i.to_bytes();
+            assert_eq!(b.len(), i.byte_len());
+            hex(&b)
+        }
+        ("imp", "de") => {
+            let b = unhex(a[2]);
+            rej_on_panic(|| HybridImpressionInfo::from_bytes(&b).ok().map(|i| format!("{:x} {}", i.key_id, hex(&i.to_bytes()))))
+        }
+        ("conv", "en") => {
+            let c = conv_info(&a[2..]);
+            let b = c.to_bytes();
+            assert_eq!(b.len(), c.byte_len());
+            hex(&b)
+        }
+        ("conv", "de") => {
+            let b = unhex(a[2]);
+            rej_on_panic(|| HybridConversionInfo::from_bytes(&b).ok().map(|c| format!("{} {}", show_conv(&c), hex(&c.to_bytes()))))
+        }
+        _ => panic!("harness: unknown info request"),
+    }
+}
+
+fn exec_rep(a: &[&str]) -> String {
+    let mk = |l: &str, r: &str| AdditiveShare::<BA64>::new(BA64::truncate_from(h128(l)), BA64::truncate_from(h128(r)));
+    match (a[0], a[1]) {
+        ("imp", "en") => {
+            let r = HybridImpressionReport::<BA8> {
+                match_key: mk(a[2], a[3]),
+                breakdown_key: AdditiveShare::new(BA8::truncate_from(h128(a[4])), BA8::truncate_from(h128(a[5]))),
+                info: HybridImpressionInfo::new(u8::from_str_radix(a[6], 16).unwrap()),
+            };
+            let mut buf = Vec::new();
+            r.serialize(&mut buf);
+            hex(&buf)
+        }
+        ("imp", "de") => {
+            let b = bytes::Bytes::from(unhex(a[2]));
+            rej_on_panic(|| {
+                HybridImpressionReport::<BA8>::deserialize(&b).ok().map(|r| {
+                    let mut ls = vec![];
+                    r.match_key.leaves(&mut ls);
+                    r.breakdown_key.leaves(&mut ls);
+                    let mut buf = Vec::new();
+                    r.serialize(&mut buf);
+                    format!("{} {:x} {}", ls.join(":"), r.info.key_id, hex(&buf))
+                })
+            })
+        }
+        ("conv", "en") => {
+            let r = HybridConversionReport::<BA3> {
+                match_key: mk(a[2], a[3]),
+                value: AdditiveShare::new(BA3::truncate_from(h128(a[4])), BA3::truncate_from(h128(a[5]))),
+                info: conv_info(&a[6..]),
+            };
+            let mut buf = Vec::new();
+            r.serialize(&mut buf);
+            hex(&buf)
+        }
+        ("conv", "de") => {
+            let b = bytes::Bytes::from(unhex(a[2]));
+            rej_on_panic(|| {
+                HybridConversionReport::<BA3>::deserialize(&b).ok().map(|r| {
+                    let mut ls = vec![];
+                    r.match_key.leaves(&mut ls);
+                    r.value.leaves(&mut ls);
+                    let mut buf = Vec::new();
+                    r.serialize(&mut buf);
+                    format!("{} {} {}", ls.join(":"), show_conv(&r.info), hex(&buf))
+                })
+            })
+        }
+        _ => panic!("harness: unknown report request"),
+    }
+}
+
 pub fn exec(req: &str) -> String {
     let t: Vec<&str> = req.split(' ').collect();
     match t[0] {
+        "c09.vec" => exec_vec(t[1], t[2]),
+        "c09.pack" => exec_pack(&t[1..]),
+        "c09.info" => exec_info(&t[1..]),
+        "c09.rep" => exec_rep(&t[1..]),
         "c09.tr" => exec_tr(&t[1..]),
         "c09.tr-list" => TR_IMPLS.iter().map(|(k, m, n)| format!("{k}:{m}x{n}")).collect::<Vec<_>>().join(","),
         "c09.blk" | "c09.de" | "c09.en" => exec_serde(t[0], t[1], &t[2..]),
@@ -977,6 +1304,206 @@ fn gen_transpose(rng: &mut Rng, thorough: bool) -> Vec<String> {
         }
     }
     out
+}
+
+fn gen_wire(rng: &mut Rng, thorough: bool) -> Vec<String> {
+    let mut out = vec![];
+    let p61 = u128::from(Fp61BitPrime::PRIME);
+    let n = if thorough { 200 } else { 20 };
+    // --- raw byte types and arrays of them
+    for ty in ["Hash", "UniqueTag", "HashArr"] {
+        let len = match ty { "Hash" => 32, "UniqueTag" => 16, _ => 14 * 32 };
+        for pat in [vec![0u8; len], vec![0xff; len]] {
+            out.push(format!("c09.de {ty} {}", hex(&pat)));
+        }
+        for _ in 0..n {
+            let b = rng.bytes(len);
+            out.push(format!("c09.de {ty} {}", hex(&b)));
+            let leaves: Vec<String> = b.chunks(if ty == "UniqueTag" { 16 } else { 32 }).map(le_to_hexint).collect();
+            out.push(format!("c09.en {ty} {}", leaves.join(":")));
+        }
+    }
+    // --- proof arrays: canonical, and exactly one non-canonical element at every position
+    for (ty, len) in [("ProofDiff", 15usize), ("ProofArr", PROOF_ARRAY_LEN)] {
+        for rep in 0..(if thorough { 6 } else { 2 }) {
+            let elems: Vec<u128> = (0..len)
+                .map(|i| match (rep, i % 4) { (0, 0) => p61 - 1, (0, 1) => 0, (0, 2) => 1, _ => rng.next_u128() % p61 })
+                .collect();
+            let enc = |es: &[u128]| -> Vec<u8> { es.iter().flat_map(|e| (*e as u64).to_le_bytes()).collect() };
+            out.push(format!("c09.de {ty} {}", hex(&enc(&elems))));
+            out.push(format!("c09.en {ty} {}", elems.iter().map(|e| format!("{e:x}")).collect::<Vec<_>>().join(":")));
+            for pos in 0..len {
+                for bad in [p61, p61 + 1, u128::from(u64::MAX), 1u128 << 61, 1u128 << 63] {
+                    if rep > 0 && bad != p61 && pos % 7 != 0 {
+                        continue;
+                    }
+                    let mut e2 = elems.clone();
+                    e2[pos] = bad;
+                    out.push(format!("c09.de {ty} {}", hex(&enc(&e2))));
+                }
+            }
+        }
+    }
+    // --- PrfHybridReport<BA8, BA3>: all value-share byte pairs for some match keys / breakdown keys
+    let mks: Vec<u64> = vec![0, 1, u64::MAX, rng.next_u64(), rng.next_u64()];
+    for (k, mk) in mks.iter().enumerate() {
+        let bk = if k == 0 { [0u8, 0] } else { [rng.next_u64() as u8, rng.next_u64() as u8] };
+        let step = if thorough || k == 0 { 1 } else { 37 };
+        for v in (0..65536u32).step_by(step) {
+            if k == 0 && !thorough && v % 256 >= 8 && (v >> 8) >= 8 && v % 5 != 0 {
+                continue; // keep every pair with a canonical half and a fifth of the doubly non-canonical ones
+            }
+            let mut b = mk.to_le_bytes().to_vec();
+            b.extend_from_slice(&(v as u16).to_le_bytes());
+            b.extend_from_slice(&bk);
+            out.push(format!("c09.de Prf {}", hex(&b)));
+        }
+        for v in 0..64u32 {
+            out.push(format!("c09.en Prf {mk:x}:{:x}:{:x}:{:x}:{:x}", v % 8, v / 8, bk[0], bk[1]));
+        }
+    }
+    // --- Vec<T>::to_bytes
+    for (ty, bound, leaves) in [("share:BA8", 256u128, 2usize), ("share:BA32", 1 << 32, 2), ("share:BA3", 8, 2),
+                                ("share:Fp32BitPrime", u128::from(Fp32BitPrime::PRIME), 2), ("share:Fp31", 31, 2), ("Prf", 0, 5)] {
+        for rows in [0usize, 1, 2, 3, 16, 255, 256, 257] {
+            if rows > 16 && !thorough && ty != "share:BA32" {
+                continue;
+            }
+            if rows == 0 {
+                out.push(format!("c09.vec {ty} -"));
+                continue;
+            }
+            let row = |rng: &mut Rng| -> String {
+                if ty == "Prf" {
+                    format!("{:x}:{:x}:{:x}:{:x}:{:x}", rng.next_u64(), rng.below(8), rng.below(8), rng.below(256), rng.below(256))
+                } else {
+                    (0..leaves).map(|_| format!("{:x}", rng.next_u128() % bound)).collect::<Vec<_>>().join(":")
+                }
+            };
+            let v: Vec<String> = (0..rows).map(|_| row(rng)).collect();
+            out.push(format!("c09.vec {ty} {}", v.join(";")));
+        }
+    }
+    // --- shuffle packing
+    let bits = |n: &str| -> u32 { n[2..].parse().unwrap() };
+    let mask = |b: u32| -> u128 { if b >= 128 { u128::MAX } else { (1u128 << b) - 1 } };
+    for (kind, list, share) in [("hyb", PACK_HYB, 112u32), ("agg", PACK_AGG, 32u32)] {
+        for (bk, v) in list {
+            let ws: Vec<u32> = if kind == "hyb" { vec![64, bits(v), bits(bk)] } else { vec![bits(v), bits(bk)] };
+            for rep in 0..(if thorough { 200 } else { 24 }) {
+                let mut fields = vec![];
+                for w in &ws {
+                    for _side in 0..2 {
+                        let x = match rep { 0 => 0, 1 => mask(*w), 2 => 1, 3 => 1u128 << (w - 1), _ => rng.next_u128() & mask(*w) };
+                        fields.push(format!("{x:x}"));
+                    }
+                }
+                out.push(format!("c09.pack {kind} {bk} {v} lr {}", fields.join(" ")));
+                let (l, r) = match rep {
+                    0 => (0, 0),
+                    1 => (mask(share), mask(share)),
+                    2 => (mask(share), 0),
+                    _ => (rng.next_u128() & mask(share), rng.next_u128() & mask(share)),
+                };
+                out.push(format!("c09.pack {kind} {bk} {v} new {l:x} {r:x}"));
+                // one-hot shares: every bit position lands in exactly one field
+                if rep == 4 {
+                    for b in 0..share {
+                        out.push(format!("c09.pack {kind} {bk} {v} new {:x} {:x}", 1u128 << b, 1u128 << (share - 1 - b)));
+                    }
+                }
+            }
+        }
+    }
+    // --- Hybrid*Info
+    for k in 0..=255u32 {
+        out.push(format!("c09.info imp en {k:x}"));
+        out.push(format!("c09.info imp de {k:02x}"));
+        out.push(format!("c09.info imp de {k:02x}00"));
+        out.push(format!("c09.info imp de {k:02x}{:02x}{:02x}", rng.below(256), rng.below(256)));
+    }
+    out.push("c09.info imp de -".into());
+    let domains: Vec<Vec<u8>> = vec![
+        vec![], b"a".to_vec(), b"https://www.example2.com".to_vec(), b"meta.com".to_vec(),
+        "\u{e9}t\u{e9}.example".as_bytes().to_vec(), "\u{65e5}\u{672c}.jp".as_bytes().to_vec(), "\u{1f600}".as_bytes().to_vec(),
+        vec![b'x'; 255], vec![b'y'; 1000], vec![0x7f], vec![0x01],
+    ];
+    let f64s: Vec<u64> = vec![0, 1.151f64.to_bits(), 0.95f64.to_bits(), (-0.0f64).to_bits(), f64::INFINITY.to_bits(),
+                              f64::NAN.to_bits(), f64::MAX.to_bits(), f64::MIN_POSITIVE.to_bits(), 1, u64::MAX, 0x7ff8_0000_0000_0001];
+    let mut convs: Vec<(u8, Vec<u8>, u64, u64, u64)> = vec![];
+    for (i, d) in domains.iter().enumerate() {
+        for j in 0..(if thorough { 12 } else { 3 }) {
+            let ts = match j { 0 => 0, 1 => u64::MAX, _ => rng.next_u64() };
+            convs.push(((i * 31 + j) as u8, d.clone(), ts, f64s[(i + j) % f64s.len()], f64s[(i + 2 * j + 3) % f64s.len()]));
+        }
+    }
+    for (k, d, ts, e, sv) in &convs {
+        out.push(format!("c09.info conv en {k:x} {} {ts:x} {e:x} {sv:x}", hex(d)));
+        let mut b = d.clone();
+        b.push(0);
+        b.push(*k);
+        b.extend_from_slice(&ts.to_be_bytes());
+        b.extend_from_slice(&e.to_be_bytes());
+        b.extend_from_slice(&sv.to_be_bytes());
+        out.push(format!("c09.info conv de {}", hex(&b)));
+        // trailing bytes, truncation, no delimiter, invalid UTF-8 in the domain
+        let mut t = b.clone();
+        t.push(0);
+        out.push(format!("c09.info conv de {}", hex(&t)));
+        t.extend_from_slice(&rng.bytes(3));
+        out.push(format!("c09.info conv de {}", hex(&t)));
+        out.push(format!("c09.info conv de {}", hex(&b[..b.len() - 1])));
+        if d.len() < 300 {
+            let nodelim: Vec<u8> = b.iter().map(|x| if *x == 0 { 1 } else { *x }).collect();
+            out.push(format!("c09.info conv de {}", hex(&nodelim)));
+            let mut bad = b.clone();
+            bad.insert(0, 0xff);
+            out.push(format!("c09.info conv de {}", hex(&bad)));
+            let mut bad2 = b.clone();
+            bad2.insert(0, 0xc0);
+            bad2.insert(1, 0x80);
+            out.push(format!("c09.info conv de {}", hex(&bad2)));
+        }
+        // plaintext conversion report: every BA3 share pair class
+        for (vl, vr) in [(0u8, 0u8), (7, 7), (8, 0), (0, 8), (0xff, 1), ((*k) % 8, (*ts % 8) as u8)] {
+            let mut rb = rng.bytes(16);
+            rb.push(vl);
+            rb.push(vr);
+            rb.extend_from_slice(&b);
+            out.push(format!("c09.rep conv de {}", hex(&rb)));
+            if vl < 8 && vr < 8 {
+                out.push(format!(
+                    "c09.rep conv en {:x} {:x} {vl:x} {vr:x} {k:x} {} {ts:x} {e:x} {sv:x}",
+                    rng.next_u64(), rng.next_u64(), hex(d)
+                ));
+            }
+            rb.push(0);
+            out.push(format!("c09.rep conv de {}", hex(&rb)));
+        }
+    }
+    out.push("c09.info conv de -".into());
+    out.push("c09.info conv de 00".into());
+    // plaintext impression reports
+    for rep in 0..(if thorough { 300 } else { 40 }) {
+        let mut b = match rep { 0 => vec![0u8; 18], 1 => vec![0xff; 18], _ => rng.bytes(18) };
+        let k = rng.below(256) as u8;
+        b.push(k);
+        out.push(format!("c09.rep imp de {}", hex(&b)));
+        out.push(format!("c09.rep imp en {:x} {:x} {:x} {:x} {k:x}", rng.next_u64(), rng.next_u64(), rng.below(256), rng.below(256)));
+        let mut t = b.clone();
+        t.push(rng.below(256) as u8);
+        out.push(format!("c09.rep imp de {}", hex(&t)));
+        out.push(format!("c09.rep imp de {}", hex(&b[..18])));
+        if rep < 19 {
+            out.push(format!("c09.rep imp de {}", hex(&b[..rep])));
+        }
+    }
+    out
+}
+
+#[test]
+fn verif_c09_wire() {
+    run_suite("c09_wire", gen_wire, exec);
 }
 
 #[test]
